@@ -38,6 +38,9 @@ type cfg struct {
 	updatesOnly  bool
 	mask         bool
 	writers      [][]string // per writer thread: ops  set:N | upd:ID:N | del:ID | add:ID:N
+	// leaver: another subscriber is already there and cancels at some moment; the bus tidies it away during a
+	// publication, which must not cost the observed subscriber its registration
+	leaver bool
 }
 
 func (c cfg) name() string {
@@ -45,7 +48,11 @@ func (c cfg) name() string {
 	for _, w := range c.writers {
 		ws = append(ws, strings.Join(w, ";"))
 	}
-	return fmt.Sprintf("%s/bp=%v,uo=%v,mask=%v/%s", c.kind, c.backpressure, c.updatesOnly, c.mask, strings.Join(ws, "|"))
+	n := fmt.Sprintf("%s/bp=%v,uo=%v,mask=%v/%s", c.kind, c.backpressure, c.updatesOnly, c.mask, strings.Join(ws, "|"))
+	if c.leaver {
+		n += "/+leaving-subscriber"
+	}
+	return n
 }
 
 func body(c cfg) func() {
@@ -68,6 +75,17 @@ func body(c cfg) func() {
 		}
 		ctx, cancel := context.WithCancel(context.Background())
 		defer cancel()
+
+		if c.leaver {
+			lctx, lcancel := context.WithCancel(context.Background())
+			defer lcancel()
+			if val != nil {
+				val.Pull(lctx, resource.WithUpdatesOnly(true))
+			} else {
+				col.Pull(lctx, resource.WithUpdatesOnly(true))
+			}
+			go func() { lcancel() }()
+		}
 
 		// ---- subscriber: folds what it receives
 		var subAt int64
@@ -309,6 +327,11 @@ func main() {
 						}
 					case "id":
 						ws = [][][]string{{{"upd:a:1", "upd:a:2"}}, {{"upd:a:1", "del:a"}}, {{"upd:a:1"}, {"upd:a:2"}}, {{"upd:a:1"}, {"del:a"}}}
+					}
+					if uo && !mask && kind != "id" {
+						// one single-writer program once more, next to a subscriber that leaves
+						c := cfg{kind: kind, backpressure: bp, updatesOnly: uo, writers: ws[0], leaver: true}
+						h.Sched(c.name(), -1, -1, body(c), hx.StdOracle)
 					}
 					for k, w := range ws {
 						c := cfg{kind: kind, backpressure: bp, updatesOnly: uo, mask: mask, writers: w}
